@@ -595,7 +595,16 @@ pub fn run(run: &mut Run) {
     run.campaign("both-directions", move || strategy_with(sw, false).prop_map(move |mut c| { c.length_in_objstm = !open && c.objstm; c }), n, check, classify);
     if open {
         // focused campaign with only this finding's construct on: every failure must match the finding's key
-        run.campaign("focused-length-in-encrypted-objstm", move || strategy_with(sw, true), run.tier.pick(400, 4000), check, classify);
+        // failures that match the finding's key are counted and the search goes on; anything else is reported
+        let tolerant = |c: &Case| match check(c) {
+            Err(v) if !v.kind.starts_with("harness-") && classify(c, &v).is_some() => {
+                let mut rep = CaseReport::new();
+                rep.exclude("known:C06-length-in-encrypted-objstm");
+                Ok(rep)
+            }
+            other => other,
+        };
+        run.campaign("focused-length-in-encrypted-objstm", move || strategy_with(sw, true), run.tier.pick(400, 4000), tolerant, classify);
     }
 }
 
